@@ -345,4 +345,5 @@ func runC17(c *Ctx) {
 			c.R.Sample(map[string]any{"origin": b.origin, "input": json.RawMessage(b.in), "payable": d0.Totals.Payable})
 		}
 	})
+	c.Require("inversions", "permutations", "remove_included_runs")
 }
